@@ -6,6 +6,11 @@ Import ListNotations.
 Open Scope string_scope.
 
 Definition modelled_sites : list string := [
+  "arrays.go|GetSliceAsArray|slice|_[_:_]|!(_ < 0 || _ < _ || _ > len(_) || _ > len(_)) && !(_ == nil) && _() == _";
+  "arrays.go|GetSlice|index|_[_]|!(_ < 0 || _ < _ || _ > _ || _ > _) && !(_ == nil) && _() == _ && range _";
+  "arrays.go|GetSlice|make|make(T, len(_))|!(_ < 0 || _ < _ || _ > _ || _ > _) && !(_ == nil) && _() == _";
+  "arrays.go|GetSlice|slice|_[_:_]|!(_ < 0 || _ < _ || _ > _ || _ > _) && !(_ == nil) && !(_() == _)";
+  "arrays.go|GetSlice|slice|_[_:_]|!(_ < 0 || _ < _ || _ > _ || _ > _) && !(_ == nil) && _() == _";
   "callframe.go|callFramePop|slice|_[:_]|!(_ != nil) && _ && len(_) > _";
   "callframe.go|callFramePop|slice|_[:_]|!(_ != nil) && len(_) > 0";
   "callframe.go|callFramePop|slice|_[_:_]|_+1 <= _";
@@ -54,6 +59,17 @@ Definition modelled_sites : list string := [
   "macro.go|compilerMacro|index|_[len(_)-1]|!(_ != nil) && !(_ == nil) && !(_() != _) && !(len(_) != 1) && _ && _ && len(_) > 0";
   "macro.go|compilerMacro|make|make(T, 0, len(_))|!(_ == nil) && !(_() != _) && !(len(_) != 1) && _";
   "macro.go|compilerMacro|slice|_[:len(_)-1]|!(_ != nil) && !(_ == nil) && !(_() != _) && !(len(_) != 1) && _ && _ && len(_) > 0 && _(_)";
+  "math.go|divideByteCode|assert|_.(T)|!(_ != nil)";
+  "math.go|divideByteCode|assert|_.(T)|!(_ != nil) && !(_ && _.(T) == 0)";
+  "math.go|divideByteCode|assert|_.(T)|!(_ != nil) && !(_.(T) == 0)";
+  "math.go|divideByteCode|assert|_.(T)|!(_ != nil) && _";
+  "math.go|divideByteCode|div|_(_.(T)) / _(_.(T))|!(_ != nil) && !(_.(T) == 0)";
+  "math.go|divideByteCode|div|_.(T) / _.(T)|!(_ != nil) && !(_ && _.(T) == 0)";
+  "math.go|divideByteCode|div|_.(T) / _.(T)|!(_ != nil) && !(_.(T) == 0)";
+  "math.go|moduloByteCode|assert|_.(T)|!(_ != nil) && !(_ < 1) && !(_(_) || _(_))";
+  "math.go|moduloByteCode|assert|_.(T)|!(_ != nil) && !(_ < 1) && !(_(_) || _(_)) && !(_.(T) == 0)";
+  "math.go|moduloByteCode|div|_(_.(T)) % _(_.(T))|!(_ != nil) && !(_ < 1) && !(_(_) || _(_)) && !(_.(T) == 0)";
+  "math.go|moduloByteCode|div|_.(T) % _.(T)|!(_ != nil) && !(_ < 1) && !(_(_) || _(_)) && !(_.(T) == 0)";
   "stack.go|dropToMarkerByteCode|assert|_.(T)|!(_ != nil) && !(_ <= _) && _ && _ != nil && for !_";
   "stack.go|stackCheckByteCode|index|_[_-(_+1)]|!(_ != nil || _ <= _)";
   "stack.go|stackCheckByteCode|index|_[_]|!(_ != nil || _ <= _) && for _ >= 0";
